@@ -48,9 +48,52 @@ Theorem C11_valid_exact (g h : @graph NumQ) :
   @Valid NumQ g -> in_generations g = Ok h -> @Valid NumQ h.
 Proof. exact (ingen_valid_Q g h). Qed.
 
+(* ---- binary64 (the NumF instance: Coq's primitive floats): the validity clause is REFUTED.  Three concrete valid
+   graphs, evaluated by vm_compute, whose conversion to generations is not valid (underflow, collapse of two
+   adjacent times, overflow), and the hypothesis DivOK of C11_valid shown false on exactly those graphs: the theorem
+   and the recorded finding F12a-c meet at the same hypothesis.  These depend on the standard library's
+   primitive-float axioms and, through Flocq, on its real-number and classical axioms (Print Assumptions below). ---- *)
+From Coq Require Import Floats.
+From Demes Require Import Base.NumF Proofs.InGenRefutedF.
+
+Theorem C11_ingen_valid_refuted_F  :
+  exists g g', @Valid NumF g /\ @in_generations NumF g = Ok g' /\ ~ @Valid NumF g'.
+Proof. exact (ingen_valid_refuted_F). Qed.
+
+Theorem C11_ingen_collapse_refuted_F  :
+  exists g g', @Valid NumF g /\ @in_generations NumF g = Ok g' /\ ~ @Valid NumF g' /\
+    (* the mechanism: two distinct positive finite times of g have the same nonzero quotient *)
+    exists t1 t2, In t1 (all_times g) /\ In t2 (all_times g) /\ nlt t2 t1 = true /\
+                  neqb (ndiv t1 (g_gt g)) (ndiv t2 (g_gt g)) = true /\
+                  nlt n0 (ndiv t2 (g_gt g)) = true.
+Proof. exact (ingen_collapse_refuted_F). Qed.
+
+Theorem C11_ingen_overflow_refuted_F  :
+  exists g g', @Valid NumF g /\ @in_generations NumF g = Ok g' /\ ~ @Valid NumF g' /\
+    (* the mechanism: the generation time is positive, finite and below 1, and a finite time of g
+       has an infinite quotient *)
+    nlt n0 (g_gt g) = true /\ nlt (g_gt g) n1 = true /\
+    exists t, In t (all_times g) /\ nisinf t = false /\ nisinf (ndiv t (g_gt g)) = true.
+Proof. exact (ingen_overflow_refuted_F). Qed.
+
+Theorem C11_divok_fails_F  : ~ @DivOK NumF NumFLaws (g_gt g_before) (all_times g_before).
+Proof. exact (divok_fails_F). Qed.
+
+Theorem C11_divok_fails_collapse_F  : ~ @DivOK NumF NumFLaws (g_gt ga_before) (all_times ga_before).
+Proof. exact (divok_fails_collapse_F). Qed.
+
+Theorem C11_divok_fails_overflow_F  : ~ @DivOK NumF NumFLaws (g_gt gb_before) (all_times gb_before).
+Proof. exact (divok_fails_overflow_F). Qed.
+
 Print Assumptions C11_total.
 Print Assumptions C11_times_divided_frame_unchanged.
 Print Assumptions C11_idempotent.
 Print Assumptions C11_valid.
 Print Assumptions C11_divok_exact.
 Print Assumptions C11_valid_exact.
+Print Assumptions C11_ingen_valid_refuted_F.
+Print Assumptions C11_ingen_collapse_refuted_F.
+Print Assumptions C11_ingen_overflow_refuted_F.
+Print Assumptions C11_divok_fails_F.
+Print Assumptions C11_divok_fails_collapse_F.
+Print Assumptions C11_divok_fails_overflow_F.
